@@ -1,6 +1,28 @@
-import CoapVerif.Lemmas.Server
+import CoapVerif.Lemmas.ServerProps
+/-
+C10 — server answers each request datagram once, with the protocol-prescribed code.
+
+P1  `decision_eq_spec`: M (transcription of coap_dispatch / handle_request, Model/Server.lean) = S (Spec/Server.lean)
+    up to the diagnostic content of library-generated replies (SPEC DECISION D4), for all configurations, tables, requests.
+P2  the clauses of the property as theorems about S (and, through P1, about M): reply count, token echo, message id,
+    NON never ACKed, 4.02/Reset, 4.04/2.02, 4.05, 4.12, 4.15, 5.05, 5.08/4.00, the handler call and its request view,
+    No-Response / multicast suppression.
+T1  tables regenerated from the code are proved equal to the RFC tables of S.
+-/
 namespace Coap.C10
 open Coap Coap.Server Coap.Server.L Coap.Generated.Server
+
+/-! ### T1 tables against S -/
+/-- the built-in list of coap_option_check_critical is RFC 7252's critical options + Block1/Block2 -/
+theorem critical_table_matches_rfc : criticalBuiltin = S.recognisedCritical := critical_eq
+/-- coap_option_check_repeatable rejects exactly the options the RFCs define as non-repeatable -/
+theorem repeatable_table_matches_rfc : nonRepeatable = S.nonRepeatable := nonrep_eq
+/-- coap_check_code_class on UDP accepts exactly classes 0, 2, 3, 4, 5 -/
+theorem code_class_table_matches_rfc : ∀ c, inIvs codeOk c = S.validCode c := codeOk_eq
+/-- what coap_get_uri_path / coap_get_query leave unescaped is allowed unescaped by RFC 3986 -/
+theorem escape_tables_legal : S.Esc.legal E := esc_legal
+
+example : fits ⟨true, 8, [65001, 21, 2049]⟩ := by decide
 
 /-- P1: the transcription M of coap_dispatch()/handle_request() prescribes, up to the diagnostic content of
 library-generated replies (SPEC DECISION D4), exactly the outcome S prescribes — for every configuration whose option
@@ -56,4 +78,197 @@ theorem decision_eq_spec (cfg : Cfg) (tbl : Table) (rq : Request) (hfit : fits c
     · simp [h2, Outcome.erase, Outcome.outOfScope]
   · simp only [h1]
     by_cases ht : rq.msg.type = CON <;> simp [ht, Outcome.erase, erase_emptyMsg]
+
+example : (M.serverDecision ⟨false, 8, []⟩ ⟨none, none, [⟨[97], 1, 0, false⟩]⟩
+    ⟨false, ⟨0, 1, 7, [1], [(11, [97])], []⟩, ⟨69, [104, 105]⟩, .absent⟩).erase =
+    ⟨true, [⟨.app, ACK, 69, 7, [1], [], .bytes [104, 105]⟩], some ⟨.res 0, 1, [97], [], [(11, [97])], []⟩⟩ := by decide
+
+/-! ### reply count and shape -/
+theorem erase_fields (x : Reply) : x.erase.type = x.type ∧ x.erase.code = x.code ∧ x.erase.mid = x.mid ∧ x.erase.token = x.token := by
+  unfold Reply.erase; cases x.src <;> simp
+
+theorem model_reply_ok (cfg : Cfg) (tbl : Table) (rq : Request) (hfit : fits cfg) :
+    ∀ x ∈ (M.serverDecision cfg tbl rq).replies, replyOk rq x := by
+  intro x hx
+  have h := (outcome_ok E cfg tbl rq).1 x.erase (by
+    rw [← decision_eq_spec cfg tbl rq hfit]; exact List.mem_map_of_mem hx)
+  obtain ⟨t, c, m, k⟩ := erase_fields x
+  unfold replyOk at h ⊢
+  rw [t, c, m, k] at h
+  exact h
+
+/-- "it emits at most one direct reply": at most one message — or, for a proxied Confirmable request, the Empty ACK
+followed by the separate Confirmable response of the proxy handler (SPEC DECISION D8) -/
+theorem at_most_one_reply (cfg : Cfg) (tbl : Table) (rq : Request) (hfit : fits cfg) :
+    (M.serverDecision cfg tbl rq).replies.length ≤ 1 ∨
+    ∃ a x, (M.serverDecision cfg tbl rq).replies = [a, x] ∧ a.type = ACK ∧ a.code = 0 ∧ a.mid = rq.msg.mid ∧
+      x.type = CON ∧ ∃ c, (M.serverDecision cfg tbl rq).call = some c ∧ c.who = .prx := by
+  have h := (outcome_ok E cfg tbl rq).2
+  rw [← decision_eq_spec cfg tbl rq hfit] at h
+  unfold countOk Outcome.erase at h
+  simp only [List.length_map] at h
+  rcases h with h | ⟨x, h1, h2, c, h3, h4⟩
+  · exact Or.inl h
+  · right
+    match hr : (M.serverDecision cfg tbl rq).replies, h1 with
+    | [a, b], h1 =>
+      simp only [List.map_cons, List.map_nil, List.cons.injEq, and_true] at h1
+      obtain ⟨ha, hb⟩ := h1
+      obtain ⟨t, cd, m, _⟩ := erase_fields a
+      obtain ⟨t', _, _, _⟩ := erase_fields b
+      refine ⟨a, b, rfl, ?_, ?_, ?_, ?_, c, h3, h4⟩
+      · rw [← t, ha]; rfl
+      · rw [← cd, ha]; rfl
+      · rw [← m, ha]; rfl
+      · rw [← t', hb]; exact h2
+    | [], h1 => simp at h1
+    | [_], h1 => simp at h1
+    | _ :: _ :: _ :: _, h1 => simp at h1
+
+example : (M.serverDecision ⟨false, 8, []⟩ ⟨none, some ⟨127, 0, [112]⟩, []⟩
+    ⟨false, ⟨0, 1, 7, [1], [(3, [104]), (39, [99])], []⟩, ⟨69, []⟩, .absent⟩).replies.length = 2 := by decide
+
+/-- "which, unless it is an Empty ACK, echoes the request's token" -/
+theorem reply_echoes_token (cfg : Cfg) (tbl : Table) (rq : Request) (hfit : fits cfg) :
+    ∀ x ∈ (M.serverDecision cfg tbl rq).replies, x.code ≠ 0 → x.token = rq.msg.token :=
+  fun x hx => (model_reply_ok cfg tbl rq hfit x hx).2.1
+
+/-- "and, for a Confirmable request, acknowledges its message id": every message carries the request's message id, an
+ACK only answers a Confirmable request, and a Reset is empty -/
+theorem con_reply_acks_mid (cfg : Cfg) (tbl : Table) (rq : Request) (hfit : fits cfg) :
+    ∀ x ∈ (M.serverDecision cfg tbl rq).replies,
+      x.mid = rq.msg.mid ∧ (x.type = RST → x.code = 0) ∧ (x.type = CON → rq.msg.type = CON) :=
+  fun x hx => let h := model_reply_ok cfg tbl rq hfit x hx; ⟨h.1, h.2.2.2.1, h.2.2.2.2⟩
+
+/-- "Non-confirmable requests are never answered with ACK" -/
+theorem non_never_acked (cfg : Cfg) (tbl : Table) (rq : Request) (hfit : fits cfg) (hn : rq.msg.type ≠ CON) :
+    ∀ x ∈ (M.serverDecision cfg tbl rq).replies, x.type ≠ ACK :=
+  fun x hx ha => hn ((model_reply_ok cfg tbl rq hfit x hx).2.2.1 ha)
+
+example : (M.serverDecision ⟨false, 8, []⟩ ⟨none, none, []⟩
+    ⟨false, ⟨1, 1, 7, [1], [(11, [97])], []⟩, ⟨69, []⟩, .absent⟩).replies.map (·.type) = [NON] := by decide
+
+/-! ### clause theorems (P2): each clause of the property as a theorem about S -/
+
+/-- "unknown critical or illegally repeated option gives 4.02 (Reset for NON)": CON → 4.02 ACK echoing the token,
+NON → Reset (nothing when the request came by multicast, RFC 7252 §8.1), ACK/RST → ignored; no handler runs. -/
+theorem unknown_critical_402_or_rst (e : S.Esc) (cfg : Cfg) (tbl : Table) (rq : Request)
+    (hc : isRequestCode rq.msg.code = true) (hv : rq.verdict.code ≠ 168)
+    (hbad : S.badOption cfg (fwdOf tbl rq) rq.msg.opts = true) :
+    S.serverSpec e cfg tbl rq =
+      if rq.msg.type = NON then ⟨true, if rq.mcast then [] else [S.lib RST 0 rq.msg.mid []], none⟩
+      else if rq.msg.type = CON then ⟨true, [S.lib ACK 130 rq.msg.mid rq.msg.token], none⟩
+      else Outcome.nothing := by
+  unfold fwdOf at hbad
+  unfold S.serverSpec
+  simp only [validCode_of_request hc, hc, hv, hbad, not_true_eq_false, if_false, if_true]
+  by_cases h1 : rq.msg.type = NON
+  · simp [h1]
+  · by_cases h2 : rq.msg.type = CON
+    · simp [h1, h2, S.errReply, S.respType]
+    · simp [h1, h2]
+
+example : S.serverSpec E ⟨false, 8, []⟩ ⟨none, none, []⟩ ⟨false, ⟨0, 1, 7, [1], [(65001, [1])], []⟩, ⟨69, []⟩, .absent⟩ =
+    ⟨true, [S.lib ACK 130 7 [1]], none⟩ := by decide
+
+/-- "no matching resource gives 4.04 (2.02 for DELETE) unless an unknown-resource handler exists" — subject to the
+No-Response / multicast rules (`S.deliver`) -/
+theorem no_resource_404_or_202 (e : S.Esc) (cfg : Cfg) (tbl : Table) (rq : Request) (h : Admitted cfg tbl rq)
+    (os : Opts) (path : Bytes)
+    (hpre : S.pre e tbl rq (tolOf cfg tbl rq) (clearBlock2M rq.msg.opts) = .go false os path)
+    (hfind : findRes tbl.res path 0 = none)
+    (hunk : ∀ u, tbl.unk = some u → handlerBit u.mask rq.msg.code = false)
+    (hwk : path ≠ wellKnownCore) :
+    S.serverSpec e cfg tbl rq =
+      ⟨true, S.deliver cfg rq none false (S.errReply rq.msg (if rq.msg.code = 4 then 66 else 132)), none⟩ := by
+  rw [spec_admitted e h]
+  have hsel : S.select tbl rq.msg.code false path = .inl (if rq.msg.code = 4 then 66 else 132) := by
+    unfold S.select
+    simp only [Bool.false_eq_true, if_false, hfind]
+    cases hu : tbl.unk with
+    | none => simp [hwk]; split <;> rfl
+    | some u => simp [hunk u hu, hwk]; split <;> rfl
+  simp only [S.stages, hpre, hsel]
+
+/-- "missing method handler 4.05" -/
+theorem no_handler_405 (e : S.Esc) (cfg : Cfg) (tbl : Table) (rq : Request) (h : Admitted cfg tbl rq)
+    (ip : Bool) (os : Opts) (path : Bytes) (sel : Sel)
+    (hpre : S.pre e tbl rq (tolOf cfg tbl rq) (clearBlock2M rq.msg.opts) = .go ip os path)
+    (hsel : S.select tbl rq.msg.code ip path = .inr sel)
+    (hosc : flag sel.flags F_OSCORE_ONLY = false) (hinm : ¬ (sel.exists_ = true ∧ hasOpt os 5 = true))
+    (hh : handlerBit sel.mask rq.msg.code = false) :
+    S.serverSpec e cfg tbl rq = ⟨true, S.deliver cfg rq (some sel.flags) false (S.errReply rq.msg 133), none⟩ := by
+  rw [spec_admitted e h]
+  have hck : S.precond cfg rq os sel = some 133 := by simp [S.precond, hosc, hinm, hh]
+  simp only [S.stages, hpre, hsel, hck]
+
+/-- "If-None-Match on an existing resource 4.12" -/
+theorem inm_existing_412 (e : S.Esc) (cfg : Cfg) (tbl : Table) (rq : Request) (h : Admitted cfg tbl rq)
+    (ip : Bool) (os : Opts) (path : Bytes) (sel : Sel)
+    (hpre : S.pre e tbl rq (tolOf cfg tbl rq) (clearBlock2M rq.msg.opts) = .go ip os path)
+    (hsel : S.select tbl rq.msg.code ip path = .inr sel)
+    (hosc : flag sel.flags F_OSCORE_ONLY = false) (hex : sel.exists_ = true) (hinm : hasOpt os 5 = true) :
+    S.serverSpec e cfg tbl rq = ⟨true, S.deliver cfg rq (some sel.flags) false (S.errReply rq.msg 140), none⟩ := by
+  rw [spec_admitted e h]
+  have hck : S.precond cfg rq os sel = some 140 := by simp [S.precond, hosc, hex, hinm]
+  simp only [S.stages, hpre, hsel, hck]
+
+/-- "FETCH without Content-Format 4.15" -/
+theorem fetch_no_cf_415 (e : S.Esc) (cfg : Cfg) (tbl : Table) (rq : Request) (h : Admitted cfg tbl rq)
+    (ip : Bool) (os : Opts) (path : Bytes) (sel : Sel)
+    (hpre : S.pre e tbl rq (tolOf cfg tbl rq) (clearBlock2M rq.msg.opts) = .go ip os path)
+    (hsel : S.select tbl rq.msg.code ip path = .inr sel)
+    (hosc : flag sel.flags F_OSCORE_ONLY = false) (hinm : ¬ (sel.exists_ = true ∧ hasOpt os 5 = true))
+    (hh : handlerBit sel.mask rq.msg.code = true) (hf : rq.msg.code = 5) (hcf : hasOpt os 12 = false) :
+    S.serverSpec e cfg tbl rq = ⟨true, S.deliver cfg rq (some sel.flags) false (S.errReply rq.msg 143), none⟩ := by
+  rw [spec_admitted e h]
+  have hck : S.precond cfg rq os sel = some 143 := by rw [hf] at hh; simp [S.precond, hosc, hinm, hh, hf, hcf]
+  simp only [S.stages, hpre, hsel, hck]
+
+/-- "proxy options without proxy support 5.05" (no proxy resource, or none for this method); a Proxy-Scheme without
+Uri-Host is 4.02 instead (`proxy_scheme_needs_host`) -/
+theorem proxy_505 (e : S.Esc) (cfg : Cfg) (tbl : Table) (rq : Request) (h : Admitted cfg tbl rq)
+    (hp : hasOpt rq.msg.opts 39 = true ∨ hasOpt rq.msg.opts 35 = true)
+    (hps : ¬ (hasOpt rq.msg.opts 39 = true ∧ ¬ hasOpt rq.msg.opts 3 = true))
+    (hno : tbl.prx = none ∨ ∃ p, tbl.prx = some p ∧ 1 ≤ rq.msg.code ∧ rq.msg.code ≤ 7 ∧ handlerBit p.mask rq.msg.code = false) :
+    S.serverSpec e cfg tbl rq = ⟨true, S.deliver cfg rq none false (S.errReply rq.msg 165), none⟩ := by
+  rw [spec_admitted e h]
+  have hpre : S.pre e tbl rq (tolOf cfg tbl rq) (clearBlock2M rq.msg.opts) = .fail 165 none := by
+    unfold S.pre
+    simp only [hasOpt_clear, hps, hp, if_false, if_true]
+    rcases hno with hn | ⟨p, hn, h1, h2, h3⟩
+    · simp [hn]
+    · simp [hn, h1, h2, h3]
+  simp only [S.stages, hpre]
+
+theorem proxy_scheme_needs_host (e : S.Esc) (cfg : Cfg) (tbl : Table) (rq : Request) (h : Admitted cfg tbl rq)
+    (hps : hasOpt rq.msg.opts 39 = true ∧ hasOpt rq.msg.opts 3 = false) :
+    S.serverSpec e cfg tbl rq = ⟨true, S.deliver cfg rq none false (S.errReply rq.msg 130), none⟩ := by
+  rw [spec_admitted e h]
+  have hpre : S.pre e tbl rq (tolOf cfg tbl rq) (clearBlock2M rq.msg.opts) = .fail 130 none := by
+    unfold S.pre
+    simp [hasOpt_clear, hps.1, hps.2]
+  simp only [S.stages, hpre]
+
+/-- "Hop-Limit exhaustion 5.08/4.00": a request without proxy options whose Hop-Limit is 1 gets 5.08, 0 gets 4.00 -/
+theorem hop_limit_508_400 (e : S.Esc) (cfg : Cfg) (tbl : Table) (rq : Request) (h : Admitted cfg tbl rq)
+    (hnp : hasOpt rq.msg.opts 39 = false ∧ hasOpt rq.msg.opts 35 = false) (v : Bytes)
+    (hv : firstOpt rq.msg.opts 16 = some v) (hex : uintOf v % 4294967296 ≤ 1 ∨ uintOf v % 4294967296 > 255) :
+    S.serverSpec e cfg tbl rq =
+      ⟨true, S.deliver cfg rq none false (S.errReply rq.msg (if uintOf v % 4294967296 = 1 then 168 else 128)), none⟩ := by
+  rw [spec_admitted e h]
+  have hpre : S.pre e tbl rq (tolOf cfg tbl rq) (clearBlock2M rq.msg.opts) =
+      .fail (if uintOf v % 4294967296 = 1 then 168 else 128) none := by
+    unfold S.pre
+    simp only [hasOpt_clear, hnp.1, hnp.2, Bool.false_eq_true, false_and, or_self, if_false]
+    unfold S.hopLimit
+    simp only [firstOpt_clear _ 16 (by decide), hv, Bool.false_eq_true, if_false]
+    by_cases h1 : uintOf v % 4294967296 = 1
+    · simp [h1]
+    · have : uintOf v % 4294967296 < 1 ∨ uintOf v % 4294967296 > 255 := by omega
+      simp only [h1, if_false]
+      rw [if_pos this]
+  simp only [S.stages, hpre]
+
+
 end Coap.C10
